@@ -378,6 +378,14 @@ def discharge(P, ctxs, ob):
         if g.le(an, cn, -ao):
             return True, "split point within the length by dominating conditions", detail
         return False, "split point not bounded by the length", detail
+    if kind == "copy" and len(args) == 2:
+        dn, sn = ("len", A.sid(args[0])), ("len", A.sid(args[1]))
+        ax.struct_len(args[0], dn, g, 0)
+        ax.struct_len(args[1], sn, g, 0)
+        detail = "%s(%s)" % (T.short(name), ", ".join(srcname(b, a) for a in t["args"][:2]))
+        if g.le(dn, sn, 0) and g.le(sn, dn, 0):
+            return True, "source and destination have the same (constant) length", detail
+        return False, "copy call", detail
     if kind == "chunks":
         k = T.fold_int(args[1]) if len(args) > 1 else None
         detail = "%s(%s)" % (T.short(name), k)
